@@ -84,6 +84,8 @@ POOL = [
     ("Optional[MA]", Optional[MA], [None, MA(1)]), ("List[MA]", List[MA], [[MA(1)]]), ("List[MB]", List[MB], [[MB(1)]]), ("Dict[str,MA]", Dict[str, MA], [{"k": MA(1)}]),
     # tuple-ish classes: subclasses of bare `tuple`, but of no parametrised tuple - not even of the one with NO items (known finding)
     ("MyTuple", MyTuple, [MyTuple((1,))]), ("NTup", NTup, [NTup(1, "x")]),
+    # PEP 604 spellings: refusing them opposite a model must be a refusal too (defect #106: AttributeError out of the hint text)
+    ("int|None", int | None, [None, 1]), ("list[int]|None", list[int] | None, [None, [1]]),
     ("NTI", NTI, [NTI(1)]), ("Annotated[int]", Annotated[int, "m"], [1]), ("Literal[1,2]", Literal[1, 2], [1]), ("Literal['a']", Literal["a"], ["a"]),
 ]
 BY_NAME = {n: (h, w) for n, h, w in POOL}
@@ -100,7 +102,7 @@ def desc(tp):  # noqa: C901, PLR0911
     args = typing.get_args(tp)
     if o is Annotated:
         return desc(args[0])
-    if o is Union:
+    if o is Union or o is getattr(types, "UnionType", None):
         cases = set()
         for a in args:
             d = desc(a)
